@@ -740,6 +740,8 @@ class CallMixin(ExprMixin):
         if con.ret is not None and con.ret != NONE:
             res = self.fresh(con.ret, "ret_" + tag.split(".")[-1])
             self.assume_valid(normal_st, res)
+        if any("fresh(result)" in e for _, e in con.ensures_):
+            self.havoc_object(normal_st, res)
         post_st = normal_st.copy()
         post_st.env = dict(env)
         post_st.env["result"] = res
@@ -807,6 +809,18 @@ class CallMixin(ExprMixin):
                     st.heap[(cls, fld)] = z3.Store(self.hmap(st, cls, fld, ty), hv.t, nv)
                     self.pending_valid(st, ty, nv, whole_map=False)
 
+    def havoc_object(self, st, res):
+        """The callee returns a newly allocated object: its fields are whatever the callee's post says
+        (the entry heap maps carry no information about a reference that did not exist at entry)."""
+        ty = res.ty.inner if isinstance(res.ty, Opt) else res.ty
+        if not isinstance(ty, Ref) or res.t is None:
+            return
+        for fld in self.class_fields(ty.cls, st):
+            fty = self.any_field_ty(ty.cls, fld)
+            nv = z3.FreshConst(fty.sort(), "new_%s_%s" % (ty.cls, _safe(fld)))
+            st.heap[(ty.cls, fld)] = z3.Store(self.hmap(st, ty.cls, fld, fty), res.t, nv)
+            self.pending_valid(st, fty, nv, whole_map=False)
+
     def class_fields(self, cls, st):
         if cls == "Future":
             fl = list(FUTURE_FIELDS)
@@ -855,6 +869,8 @@ class CallMixin(ExprMixin):
             else:
                 res = self.fresh(cm.returns, "ret")
                 self.assume_valid(st, res)
+        if any("fresh(result)" in e for e in cm.post):
+            self.havoc_object(st, res)
         post_st = st.copy()
         post_st.env = dict(call_st.env)
         post_st.env["result"] = res
